@@ -540,7 +540,7 @@ func RunSchedWorld(c *Ctl, prof *SchedProfile, g *GraphSpec, res *RunResult) {
 				break
 			}
 			// optionally fire a fault while nothing is in flight
-			if len(faults) > 0 && prof.CancelAt < 0 && prof.WFault > 0 && c.Ch.Bool(prof.WFault, prof.WFault+40, "idle-fault") {
+			if len(faults) > 0 && (prof.CancelAt < 0 || e.faultsFired > 0) && prof.WFault > 0 && c.Ch.Bool(prof.WFault, prof.WFault+40, "idle-fault") {
 				e.fireFault(faults[0], 0)
 				continue
 			}
@@ -564,7 +564,7 @@ func RunSchedWorld(c *Ctl, prof *SchedProfile, g *GraphSpec, res *RunResult) {
 			w = append(w, prof.WRelease)
 		}
 		w = append(w, prof.WAdvance, prof.WBarrier)
-		if len(faults) > 0 && prof.CancelAt < 0 {
+		if len(faults) > 0 && (prof.CancelAt < 0 || e.faultsFired > 0) {
 			w = append(w, prof.WFault)
 		} else {
 			w = append(w, 0)
